@@ -722,9 +722,12 @@ class Fn:
                     self.defs.setdefault(nm, []).append((i, op, rhs, decl))
             if s[0] in ("if", "while"):
                 # `if (++n > m)`: n is incremented when the test is made (op '++cond', at the position of the test)
-                for j, t in enumerate(s[1][:-1]):
-                    if t in ("++", "--") and IDENT.match(s[1][j + 1]) and not (j and (IDENT.match(s[1][j - 1]) or s[1][j - 1] in (")", "]"))):
+                for j, t in enumerate(s[1]):
+                    if t in ("++", "--") and j + 1 < len(s[1]) and IDENT.match(s[1][j + 1]) and not (j and (IDENT.match(s[1][j - 1]) or s[1][j - 1] in (")", "]"))):
                         self.defs.setdefault(s[1][j + 1], []).append((i, t + "cond", None, False))
+                    elif t in ("++", "--") and j and IDENT.match(s[1][j - 1]) and not (j > 1 and s[1][j - 2] in (".", "->")):
+                        # `if (n++ >= m)`: incremented by the test as well (which compares the value before)
+                        self.defs.setdefault(s[1][j - 1], []).append((i, t + "cond", None, False))
 
     def written_between(self, names, p, q) -> bool:
         return any(p < i < q for nm in names for i, op, rhs, decl in self.defs.get(nm, ()))
@@ -1177,16 +1180,17 @@ class Sym:
     condition is decided by the concrete values takes that branch; an undecided `if` is followed on both sides (a side that
     leaves the function / loop is recorded in `side_exits` and dropped; two sides that fall through must agree)."""
 
-    def __init__(self, scalars=None, arrays=None, concrete=None, stop=None):
+    def __init__(self, scalars=None, arrays=None, concrete=None, stop=None, skip=None):
         self.s = dict(scalars or {})
         self.a = dict(arrays or {})
         self.c = dict(concrete or {})
         self.stop = stop or (lambda st: False)
+        self.skip = skip or (lambda st: False)       # statements stepped over (a loop taken as run to its end by the caller)
         self.side_exits = []
         self._fresh = 0
 
     def clone(self):
-        o = Sym(self.s, self.a, self.c, self.stop)
+        o = Sym(self.s, self.a, self.c, self.stop, self.skip)
         o.side_exits = self.side_exits
         o._fresh = self._fresh
         return o
@@ -1294,6 +1298,8 @@ class Sym:
         k = st[0]
         if self.stop(st):
             return ("stop", st)
+        if self.skip(st):
+            return None
         if k == "block":
             for s in st[1]:
                 r = self.run(s)
